@@ -16,18 +16,19 @@ Definition prev_cpu (X : xpart) : option Z := if w_inited X then Some (w_cpu X) 
 (* one call of save_watchpoint with an empty queue: what is generated, and the new watch state *)
 Lemma x_watch_empty C f pos o X : pend X = [] -> (wp_cpu C || wp_var C) = true ->
   let X' := x_watch C f pos o X in
-  w_inited X' = true /\ v_copy X' = v_copy X /\
+  let copy := match v_copy X with Some y => y | None => o_var o end in
+  let differs := wp_var C && negb (o_var o =? copy) in
+  let hit := differs && negb (g_init X && (o_var o =? g_val X)) in
+  w_inited X' = true /\ v_copy X' = (if fix_var C && differs then Some (o_var o) else v_copy X) /\
   (wp_cpu C = true -> w_cpu X' = o_cpu o) /\
   cpu_values (map a_ev (pend X')) =
     (if wp_cpu C && (negb (w_cpu X =? o_cpu o)%Z || negb (w_inited X)) then [cpu_word (o_cpu o)] else []) /\
-  let copy := match v_copy X with Some y => y | None => o_var o end in
-  let hit := wp_var C && negb (o_var o =? copy) && negb (g_init X && (o_var o =? g_val X)) in
   var_values (map a_ev (pend X')) = (if hit then [o_var o] else []) /\
   g_init X' = (if hit then true else g_init X) /\ g_val X' = (if hit then o_var o else g_val X).
 Proof.
   intros Hp Hw. unfold x_watch. rewrite Hw, Hp. cbn [negb].
   unfold full, cpu_values, var_values.
-  destruct (wp_cpu C) eqn:Ec; destruct (wp_var C) eqn:Ev; try discriminate;
+  destruct (fix_var C); destruct (wp_cpu C) eqn:Ec; destruct (wp_var C) eqn:Ev; try discriminate;
     destruct (w_inited X); destruct (w_cpu X =? o_cpu o)%Z;
     destruct (v_copy X) as [y|]; rewrite ?N.eqb_refl;
     try destruct (o_var o =? y); destruct (g_init X); destruct (o_var o =? g_val X);
@@ -56,14 +57,15 @@ Fixpoint all_ne (v0 : N) (l : list N) : Prop :=
 Fixpoint no_return (v0 : N) (l : list N) : Prop :=
   match l with [] => True | v :: r => if v =? v0 then no_return v0 r else all_ne v0 r end.
 
-Lemma var_phase_b C v0 : wp_var C = true -> forall l X, pend X = [] -> v_copy X = Some v0 ->
+Lemma var_phase_b C v0 : fix_var C = false -> wp_var C = true -> forall l X, pend X = [] -> v_copy X = Some v0 ->
   g_init X = true -> all_ne v0 (map (fun p => o_var (snd p)) l) ->
   var_values (wrun C l X) = nchanges_from (g_val X) (map (fun p => o_var (snd p)) l).
 Proof.
-  intro Hv. induction l as [|[t o] r IH]; intros X Hp Hc Hg Hall; [reflexivity|].
+  intros Hfx Hv. induction l as [|[t o] r IH]; intros X Hp Hc Hg Hall; [reflexivity|].
   cbn [wrun map snd nchanges_from]. cbn [map snd all_ne] in Hall. destruct Hall as [Hne Hall].
   assert (Hw : (wp_cpu C || wp_var C) = true) by (rewrite Hv; apply orb_true_r).
   destruct (x_watch_empty C (dummy_frame t) 0 o X Hp Hw) as (_ & Hcp & _ & _ & Hvv & Hgi & Hgv).
+  rewrite Hfx in Hcp. cbn [andb] in Hcp.
   rewrite Hc, Hv, Hg in Hvv, Hgi, Hgv. cbn [andb] in Hvv, Hgi, Hgv.
   assert (E : (o_var o =? v0) = false) by (apply N.eqb_neq; exact Hne). rewrite E in Hvv, Hgi, Hgv.
   cbn [negb andb] in Hvv, Hgi, Hgv.
@@ -76,14 +78,15 @@ Proof.
     + rewrite Hgi. destruct (negb (o_var o =? g_val X)); reflexivity.
 Qed.
 
-Theorem var_run C v0 : wp_var C = true -> forall l X, pend X = [] -> v_copy X = Some v0 ->
+Theorem var_run C v0 : fix_var C = false -> wp_var C = true -> forall l X, pend X = [] -> v_copy X = Some v0 ->
   g_init X = false -> no_return v0 (map (fun p => o_var (snd p)) l) ->
   var_values (wrun C l X) = nchanges_from v0 (map (fun p => o_var (snd p)) l).
 Proof.
-  intro Hv. induction l as [|[t o] r IH]; intros X Hp Hc Hg Hnr; [reflexivity|].
+  intros Hfx Hv. induction l as [|[t o] r IH]; intros X Hp Hc Hg Hnr; [reflexivity|].
   cbn [wrun map snd nchanges_from]. cbn [map snd no_return] in Hnr.
   assert (Hw : (wp_cpu C || wp_var C) = true) by (rewrite Hv; apply orb_true_r).
   destruct (x_watch_empty C (dummy_frame t) 0 o X Hp Hw) as (_ & Hcp & _ & _ & Hvv & Hgi & Hgv).
+  rewrite Hfx in Hcp. cbn [andb] in Hcp.
   rewrite Hc, Hv, Hg in Hvv, Hgi, Hgv. cbn [andb negb] in Hvv, Hgi, Hgv. rewrite andb_true_r in Hvv, Hgi, Hgv.
   rewrite var_values_app, Hvv.
   destruct (o_var o =? v0) eqn:E.
@@ -92,7 +95,7 @@ Proof.
     + rewrite Hcp. exact Hc.
   - rewrite (N.eqb_sym v0 (o_var o)), E. cbn [negb]. f_equal.
     cbn [negb] in Hgi, Hgv.
-    rewrite (var_phase_b C v0 Hv r (set_pend (x_watch C (dummy_frame t) 0 o X) [])); cbn [set_pend pend v_copy g_init g_val];
+    rewrite (var_phase_b C v0 Hfx Hv r (set_pend (x_watch C (dummy_frame t) 0 o X) [])); cbn [set_pend pend v_copy g_init g_val];
       try reflexivity; try assumption.
     + rewrite Hgv. reflexivity.
     + rewrite Hcp. exact Hc.
@@ -101,7 +104,8 @@ Qed.
 (* Without the guard the statement is false: the thread's copy is never updated, so a change back to
    the value the variable had at the thread's first hook is not reported (3 -> 4 -> 3: one event) *)
 Definition var_cfg : xcfg :=
-  {| xb := plain 0 1024 1024 PG; read_of := fun _ => 0; wp_cpu := false; wp_var := true; pmu_ok := false |}.
+  {| xb := plain 0 1024 1024 PG; read_of := fun _ => 0; wp_cpu := false; wp_var := true; pmu_ok := false;
+     fix_var := false; fix_drop := false |}.
 Definition ov (v : N) : oval :=
   {| o_statm := []; o_pf := []; o_cycle := []; o_cache := []; o_branch := []; o_cpu := 0%Z; o_var := v |}.
 Definition var_x0 : xpart :=
@@ -111,6 +115,39 @@ Lemma var_watch_refuted :
   var_values (wrun var_cfg [(100, ov 3); (110, ov 4); (120, ov 3)] var_x0) = [4] /\
   nchanges_from 3 [3; 4; 3] = [4; 3].
 Proof. split; reflexivity. Qed.
+
+(* With proposed-fixes/C17-2.diff (the thread's copy follows the observations) the statement holds for
+   every sequence: an event exactly when the value differs from the thread's previous observation *)
+Theorem var_run_fixed C : fix_var C = true -> wp_var C = true -> forall l X v0, pend X = [] -> v_copy X = Some v0 ->
+  (g_init X = true -> g_val X = v0) ->
+  var_values (wrun C l X) = nchanges_from v0 (map (fun p => o_var (snd p)) l).
+Proof.
+  intros Hfx Hv. induction l as [|[t o] r IH]; intros X v0 Hp Hc Hg; [reflexivity|].
+  cbn [wrun map snd nchanges_from].
+  assert (Hw : (wp_cpu C || wp_var C) = true) by (rewrite Hv; apply orb_true_r).
+  destruct (x_watch_empty C (dummy_frame t) 0 o X Hp Hw) as (_ & Hcp & _ & _ & Hvv & Hgi & Hgv).
+  rewrite Hfx, Hc, Hv in Hcp. rewrite Hc, Hv in Hvv, Hgi, Hgv. cbn [andb] in Hcp, Hvv, Hgi, Hgv.
+  rewrite var_values_app, Hvv.
+  destruct (o_var o =? v0) eqn:E.
+  - apply N.eqb_eq in E. rewrite E in *. rewrite N.eqb_refl. cbn [negb andb app] in *.
+    apply IH; cbn [set_pend pend v_copy g_init g_val]; try reflexivity.
+    + exact Hcp.
+    + rewrite Hgi, Hgv. exact Hg.
+  - rewrite (N.eqb_sym v0 (o_var o)), E. cbn [negb andb] in *.
+    assert (G : (g_init X && (o_var o =? g_val X)) = false).
+    { destruct (g_init X) eqn:GI; [|reflexivity]. cbn [andb]. rewrite (Hg eq_refl). exact E. }
+    rewrite G in *. cbn [negb] in *. f_equal.
+    apply IH; cbn [set_pend pend v_copy g_init g_val]; try reflexivity.
+    + exact Hcp.
+    + intros _. exact Hgv.
+Qed.
+
+Definition var_cfg_fixed : xcfg :=
+  {| xb := plain 0 1024 1024 PG; read_of := fun _ => 0; wp_cpu := false; wp_var := true; pmu_ok := false;
+     fix_var := true; fix_drop := false |}.
+Example var_watch_fixed_example :
+  var_values (wrun var_cfg_fixed [(100, ov 3); (110, ov 4); (120, ov 3)] var_x0) = [4; 3].
+Proof. reflexivity. Qed.
 
 (* ---------------------------------------------------------------- the MAX_EVENT limit *)
 (* with MAX_EVENT events pending nothing is queued, but the cpu observation is still overwritten:
